@@ -84,7 +84,10 @@ def random_history(rng, max_classes=6, p_inv=0.5, keys=KEYS):
                     acc["fget"] = b.new_fn(npre, npost)
                 ns.append(b.member(key, **acc))
             else:
-                ns.append(b.member(key, b.new_fn(npre, npost, nsnap, sname)))
+                f = b.new_fn(npre, npost, nsnap, sname)
+                if rng.random() < 0.25:
+                    b.ops.append(op("wrap", f=f))      # a foreign functools.wraps decorator above the contracts
+                ns.append(b.member(key, f))
         if rng.random() < 0.15:
             ns.append(["attr", "other"])
         k = b.add_class(bases, ns, dbc)
@@ -104,6 +107,18 @@ def shapes():
     out = []
     for pa, pb, pc in itertools.product([0, 1, 2], repeat=3):
         for post in (0, 1):
+            # chain with foreign decorator layers above the contracts of the overriding functions
+            b = Builder()
+            fa = b.new_fn(pa, post)
+            a = b.add_class([], [b.member("m", fa)])
+            fb = b.new_fn(pb, post)
+            b.ops.append(op("wrap", f=fb))
+            bb = b.add_class([a], [b.member("m", fb)])
+            fc = b.new_fn(pc, post)
+            b.ops.append(op("wrap", f=fc))
+            b.ops.append(op("wrap", f=fc))
+            b.add_class([bb], [b.member("m", fc)])
+            out.append(b.case())
             # chain A <- B <- C on method m
             b = Builder()
             a = b.add_class([], [b.member("m", b.new_fn(pa, post))])
